@@ -5,6 +5,8 @@ import EV.Drv.Peers
 import EV.Drv.Reorg
 import EV.Drv.Daemon
 import EV.Drv.TxCodec
+import EV.Drv.HeaderCache
+import EV.Drv.Rpc
 
 /-!
 `evdrv <suite>`: reads one operation per line on stdin, applies it to the Lean model of that
@@ -40,4 +42,6 @@ def main (args : List String) : IO UInt32 := do
   | ["daemon"] => Drv.loop stdin stdout Drv.DaemonD.stepLine Drv.DaemonD.init; return 0
   | ["txcodec"] => Drv.loop stdin stdout (Drv.TxCodecD.stepLine 0) Drv.TxCodecD.init; return 0
   | ["txcodec-orig"] => Drv.loop stdin stdout (Drv.TxCodecD.stepLine 1) Drv.TxCodecD.init; return 0
+  | ["headercache"] => Drv.loop stdin stdout Drv.HeaderCacheD.stepLine {}; return 0
+  | ["rpc"] => Drv.loop stdin stdout Drv.RpcD.stepLine {}; return 0
   | _ => IO.eprintln "usage: evdrv <suite>"; return 2
